@@ -70,7 +70,7 @@ def rand_number(ch):
     if k <= 2:
         return ('lit', 'int', str(int(digits(ch.int(1, 9)))))
     if k == 3:
-        return ('lit', 'int', ch.pick(['0', '255', '256', '65535', '4294967296', '9223372036854775807', '1000000']))
+        return ch.pick([('lit', 'int', t) for t in ('0', '255', '256', '65535', '4294967296', '9223372036854775807', '1000000', '18446744073709551615')] + [('lit', 'float', '1e400'), ('lit', 'float', '1e-400')])
     if k == 4:
         return ('lit', 'float', digits(ch.int(1, 4)) + '.' + digits(ch.int(0, 6)))
     if k == 5:
@@ -460,7 +460,8 @@ def typed_term(ch, env, T, depth):
             op = ch.pick(['+', '+', '-', '-', '*', '*', '/', '**'])
             return binop(op, typed_term(ch, env, 'N', d), typed_term(ch, env, 'N', d))
         if k == 9:
-            return ('const', ch.pick(['PI', 'E', 'PI', 'E', 'INF', 'NAN']))
+            c = ('const', ch.pick(['PI', 'E', 'PI', 'E', 'INF', 'NAN']))
+            return ('un', '-', c) if ch.int(0, 2) == 0 else c
         if k == 10:
             f = ch.pick(NUM_FUNCS_N)
             if f in ('int', 'float') and ch.int(0, 3) == 0:
